@@ -711,3 +711,14 @@ Definition dangling_fixed := handoff_op demo_log [] 0 SelNone false (Some 55) tr
 Definition orphan_fixed := handoff_op demo_log [] 0 SelNone true None false demo_fresh.
 Lemma fixed_eq : dangling_fixed = (demo_log, [], Err ENoArtifact) /\ orphan_fixed = (demo_log, [], Err EBundle).
 Proof. vm_compute. split; reflexivity. Qed.
+
+(* ---------- the HTTP layer ---------- *)
+Lemma http_status_created_iff (r : result resp) : http_status r = 201 <-> exists x, r = Ok x.
+Proof.
+  split.
+  - destruct r as [x|e]; [intros _; exists x; reflexivity|]. destruct e; cbn [http_status]; intros H; discriminate H.
+  - intros [x ->]. reflexivity.
+Qed.
+Lemma http_status_classes (r : result resp) :
+  http_status r = 201 \/ http_status r = 400 \/ http_status r = 404 \/ http_status r = 500.
+Proof. destruct r as [x|e]; [left; reflexivity|]. destruct e; cbn [http_status]; tauto. Qed.
